@@ -6,9 +6,13 @@ for d in sorted(glob.glob('/verif/seeded/*/')):
     m = json.load(open(d + 'meta.json'))
     det = m.get('detection', {})
     title = m.get('title', '')
-    if title.strip() == '' or title.startswith(('Every job is accounted', 'Scientific instance files', 'Routing-cost providers', 'Interrupting the solver')):
+    prop_titles = [json.loads(l)['title'] for l in open('/verif/properties.jsonl')]
+    # sub-agents of the later rounds put the property title into `title`: the change itself is in `mechanism`
+    if title.strip() == '' or title.strip() in prop_titles or title.startswith(('Every job is accounted', 'Scientific instance files', 'Routing-cost providers', 'Interrupting the solver')):
         title = m.get('mechanism', title)
-    rows.append((os.path.basename(d[:-1]), title[:140].replace('|', '/').replace('\n', ' '), det.get('check', '').replace('|', '/'), det.get('note', '').replace('|', '/').replace('\n', ' ')))
+        if isinstance(title, dict) or isinstance(title, list):
+            title = json.dumps(title)
+    rows.append((os.path.basename(d[:-1]), title[:200].replace('|', '/').replace('\n', ' '), det.get('check', '').replace('|', '/'), det.get('note', '').replace('|', '/').replace('\n', ' ')))
 table = "| seed | change | caught by | history |\n|---|---|---|---|\n" + "".join(f"| {a} | {b} | {c} | {d} |\n" for a, b, c, d in rows)
 p = '/verif/DESIGN.md'
 s = open(p).read()
